@@ -421,3 +421,24 @@ Example positional_mixed_flip_witness :
   /\ parse_row rmAN [(s!"m", s!"n|n;5")] = Err EValue
   /\ parse_row rmAN [(s!"m", s!"q|n;5")] = Ok (VModel [(s!"m", VModel [(s!"a", VStr s!"q"); (s!"n", VInt 5)])]).
 Proof. repeat split; vm_compute; reflexivity. Qed.
+
+(* the short headers the property names, paired with the long forms their NAMES say
+   (condition_X <-> edges.*.condition.X, ...): the regenerated table agrees *)
+Definition named_short_headers : list (str * str) :=
+  [(s!"from", s!"edges.*.from_"); (s!"condition", s!"edges.*.condition.value");
+   (s!"condition_value", s!"edges.*.condition.value"); (s!"condition_var", s!"edges.*.condition.variable");
+   (s!"condition_variable", s!"edges.*.condition.variable"); (s!"condition_type", s!"edges.*.condition.type");
+   (s!"condition_name", s!"edges.*.condition.name"); (s!"_nodeId", s!"node_uuid"); (s!"_ui_type", s!"ui_type");
+   (s!"_ui_position", s!"ui_position")].
+
+Example named_short_headers_ok :
+  forall short long, In (short, long) named_short_headers ->
+    forall cells, ctx_h2f flow_ctx cells short = Ok long /\ ctx_h2f flow_ctx cells long = Ok long.
+Proof.
+  assert (H : forallb (fun sl => match oget str_eqb (cx_basic flow_cx) (fst sl) with
+                                 | Some l => str_eqb l (snd sl) | None => false end) named_short_headers = true)
+    by (vm_compute; reflexivity).
+  rewrite forallb_forall in H. intros short long Hin cells. specialize (H _ Hin). cbn [fst snd] in H.
+  destruct (oget str_eqb (cx_basic flow_cx) short) as [l|] eqn:E; [|discriminate].
+  apply str_eqb_eq in H. subst l. apply short_long_headers. exact E.
+Qed.
